@@ -866,10 +866,11 @@ func (c *FnCtx) errConvention(callee *ssa.Function, rv Val) {
 }
 
 // belowParams: parameter names listed as below(x) in the assigns clause
-// strictFrames (GOVC_STRICT_FRAMES=1): callers ignore an assigns/pure clause for the heap classes whose frame
-// obligation is excepted in the callee. Off by default: the clause is then an ASSUMED contract at the callers,
-// reported per property in the evidence (coverage.assumed_frames) — see DESIGN 7.7.
-var strictFrames = os.Getenv("GOVC_STRICT_FRAMES") != ""
+// strictFrames: callers ignore an assigns/pure clause for the heap classes whose frame obligation is excepted
+// (not proved) in the callee and havoc the whole class instead. On by default since every frame obligation of
+// the reference tree is proved (frame() loop invariants); GOVC_LAX_FRAMES=1 restores the older behaviour, in
+// which such a clause is an ASSUMED contract at the callers, reported in the evidence (coverage.assumed_frames).
+var strictFrames = os.Getenv("GOVC_LAX_FRAMES") == ""
 
 // frameExcepted: heap classes whose frame obligation is listed in an except clause of the contract
 func (s *FuncSpec) frameExcepted() map[string]bool {
